@@ -567,6 +567,7 @@ func c29Walk(cfg c29Cfg, strict bool, bs []byte, tbl *[]c29Infl) (viol int, bigC
 		}
 		if uint64(len(bs)) < length {
 			dtrip(append(append([]byte{}, acc...), unmask(bs)...), true) // recorded for the model; the stream ends either way
+			c29FlushPending = false
 			return 0, bigCtl
 		}
 		acc = append(acc, unmask(bs[:length])...)
@@ -576,9 +577,14 @@ func c29Walk(cfg c29Cfg, strict bool, bs []byte, tbl *[]c29Infl) (viol int, bigC
 		}
 		if !fin {
 			inFrag = true
+			// the limit sits inside a deflate block that is unfinished at this fragment boundary: an error
+			// while the following frames are pulled makes flate hand out what it has decoded (see c29Emit)
+			var scratch []c29Infl
+			c29FlushPending = compressed && cfg.DLimit > 0 && c29Surfaced(acc, true, &scratch) > cfg.DLimit
 			continue
 		}
 		inFrag = false
+		c29FlushPending = false
 		out := acc
 		if compressed {
 			o, ok := c29Inflate(acc, tbl)
@@ -969,8 +975,28 @@ func c29Hex(b []byte) string {
 	return hex.EncodeToString(b)
 }
 
+// c29FlushPending: set by c29Walk while a compressed message is between fragments and an error flush of
+// the inflater would exceed the decompressed limit although what it has handed out so far does not.
+var c29FlushPending bool
+
 func c29Emit(w *verifW, i int, cfg c29Cfg, stream []byte, class string) {
 	cfg = c29Effective(cfg)
+	if cfg.DLimit > 0 {
+		// Outside the model: the stream ends or fails (protocol error, close frame, EOF at a frame
+		// boundary) between the fragments of a compressed message in that state. The real reader then
+		// reports ErrReadLimit in place of the error (after the 1002/close frame, if any). Those
+		// streams are run without a decompressed limit.
+		var scratch []c29Infl
+		c29FlushPending = false
+		c29Walk(cfg, true, stream, &scratch)
+		p := c29FlushPending
+		c29FlushPending = false
+		c29Walk(cfg, false, stream, &scratch)
+		if p || c29FlushPending {
+			cfg.DLimit = 0
+			class += "+dlimit-dropped"
+		}
+	}
 	obs, wok := c29Run(cfg, stream)
 	c29EmitObs(w, i, cfg, stream, class, obs, wok)
 }
@@ -1210,7 +1236,7 @@ func TestVerifC29(t *testing.T) {
 			frames, _ := c29Session(r, cfg, false, true)
 			frames, name := c29Mutate(r, cfg, frames)
 			s := c29Encode(frames)
-			if r.Intn(6) == 0 && name != "rsv1-data-uncompressed" { // (flate fails before a truncation is noticed)
+			if r.Intn(6) == 0 && name != "rsv1-data-uncompressed" && name != "deflate-corrupt" { // (flate fails before a truncation is noticed)
 				s = s[:r.Intn(len(s)+1)]
 				name += "+trunc"
 			}
